@@ -15,7 +15,6 @@ Inductive finding :=
 | F_search_star | F_search_comma | F_search_star_first | F_search_reversed
 | F_search_beyond | F_search_huge
 | F_uidsearch_shape     (* UID SEARCH UID <set>: only a:b with a<=b is implemented *)
-| F_deleted_case        (* \Deleted selected by a case-sensitive whole-word test (regression of 378938d) *)
 | F_noop_notices.       (* NOOP/IDLE announce "last..current+1" *)
 
 Definition zlist_eqb (a b : list Z) : bool :=
@@ -80,11 +79,9 @@ Definition copy_count_ok (s : seqset) (n c : Z) : bool :=
   (Z.of_nat (length (addressed s n)) <=? c)
   && (c <=? fold_right Z.add 0 (map (fun it => Z.of_nat (length (addressed [it] n))) s)).
 
-(** EXPUNGE family: the SQL test and the \Deleted atom (case-insensitive,
-    RFC 3501 2.3.2) disagree on some stored flag string *)
-Definition classify_expunge (mbox : list msg) : option finding :=
-  if existsb (fun m => negb (Bool.eqb (sql_deleted (m_flags m)) (has_deleted (m_flags m)))) mbox
-  then Some F_deleted_case else None.
+(** EXPUNGE family: premise of the exactness theorem (no finding class: the
+    SQL whole-word test is the flag-atom test on such strings, Proof/DeletedWord.v) *)
+Definition flags_blank_ws (mbox : list msg) : bool := forallb (fun m => blank_ws (m_flags m)) mbox.
 
 (** STORE +FLAGS (Junk): the rows moved away must be the rows denoted *)
 Definition junk_store_ok (s : seqset) (mbox : list msg) (moved_ids : list Z) : bool :=
